@@ -34,6 +34,20 @@ def extra_jobs(ctx):
         for f in finals:
             jobs.append(('S', ((ts1, 'always'), (ts2, 'always')), [f],
                          False))
+    # zero-length forcing calls that flush lagging processes
+    zero = [[('update', 0)], [('run_for', 0, True)],
+            [('run_for', 0, True), ('update', 2)]]
+    lag = [[('run_for', 1, False)], [('run_for', 1.5, False)],
+           [('run_for', 2.5, False)], [('run_for', 3.5, False)],
+           [('run_for', 1, False), ('run_for', 1.5, False)]]
+    for ts in sched.T_ALL:
+        for pre in lag:
+            for z in zero:
+                jobs.append(('S', ((ts, 'always'),), pre + z, False))
+                jobs.append(('S', ((ts, 'always'), (1, 'always')),
+                             pre + z, False))
+                jobs.append(('S', ((ts, 'always'), (2, 'never')),
+                             pre + z, False))
     return jobs
 
 
